@@ -6,7 +6,7 @@
    [start_checks], [inst_checks]; the disk is advanced with [rb_run] only.
 
    rbcheck <file> [dump]   -> one "rbsync <id> k=v ..." line per sync section (with "dump": preceded by the
-                              "rec <id> <seg> <off> <len>" lines of the old placement the decoder found),
+                              "rec <id> <seg> <off> <len>" lines of every record the decoder found),
                               then "end"
 
    History file, one item per line (numbers decimal; offsets and lengths in 4 KiB blocks; <seg> = the
@@ -21,10 +21,12 @@
      ev MS                          manifest fsync returned               (EMetaSync)
    Outside a sync section an event advances the disk (dstep; manifest events are ignored there).
    A sync section
-     rbsync <id> <label> / old <s> <e> / new <s> <e> / rec <id> <seg> <off> <len> / decode <dir> / ev ... / endsync
-   holds the armed trace of one sync and its instance: the old and new live range, and the placement of
-   the old live records, explicit ("rec", used in replays and mutants) or decoded from the copies of the
-   pre-sync segment files in <dir> ("decode": rb_scan over every rollback.*.log, then live_of).
+     rbsync <id> <label> / maxlen <m> / old <s> <e> / new <s> <e> / rec <id> <seg> <off> <len> / decode <dir> / ev ... / endsync
+   holds the armed trace of one sync and what its instance is built from (RbProto.mk_inst): max_rollback_log_len,
+   the live range stored in the old and in the new manifest (mapped through RbProto.guaranteed m: the records a
+   manifest promises, and RbProto.scan_start: what the reader needs in front of them; maxlen 0 or absent = no
+   guaranteed-mapping), and the records of the pre-sync segment files, explicit ("rec", used in replays and
+   mutants) or decoded from the copies of the files in <dir> ("decode": rb_scan over every rollback.*.log).
    At endsync the section is evaluated on d0 = the disk reached so far; then the disk is advanced through
    the section's events and the manifest state is reset to "old" for the next sync. *)
 
@@ -134,7 +136,8 @@ let decode_dir (dir : string) : decoded =
 
 type section = {
   id : string;
-  mutable os : coq_N; mutable oe : coq_N; mutable ns : coq_N; mutable ne : coq_N;
+  mutable maxlen : coq_N;            (* N0 = ranges taken literally *)
+  mutable os : coq_N; mutable oe : coq_N; mutable ns : coq_N; mutable ne : coq_N;   (* as stored in the manifests *)
   mutable recs_x : rrec list;        (* explicit rec lines, reversed *)
   mutable dir : string option;
   mutable tr : ev list;              (* reversed *)
@@ -142,20 +145,32 @@ type section = {
 
 let count p l = Stdlib.List.length (Stdlib.List.filter p l)
 
-let evaluate (d0 : disk) (s : section) (dump : bool) (emit : string -> unit) : ev list =
-  let tr = Stdlib.List.rev s.tr in
-  let dec_info, recs =
+let evaluate (d0 : disk) (prev : coq_N) (s : section) (dump : bool) (emit : string -> unit) : ev list * coq_N =
+  let tr0 = Stdlib.List.rev s.tr in
+  (* every record found in the pre-sync segment files (or listed explicitly) *)
+  let dec_info, all =
     match s.dir with
     | Some dir ->
         let d = decode_dir dir in
-        (d.info, live_of s.os s.oe d.all @ Stdlib.List.rev s.recs_x)
+        (d.info, d.all @ Stdlib.List.rev s.recs_x)
     | None -> ("decode=explicit", Stdlib.List.rev s.recs_x)
   in
-  let i = { o_start = s.os; o_end = s.oe; o_recs = recs; n_start = s.ns; n_end = s.ne } in
+  let iw0 = match index_of is_meta_write tr0 with Some n -> int_of_nat n | None -> -1 in
+  let pre0 = Stdlib.List.filteri (fun k _ -> iw0 < 0 || k < iw0) tr0 in
+  (* ranges: what the manifests promise (guaranteed) and what the reader needs in front of it (scan_start) *)
+  let i = mk_inst s.maxlen prev all s.os s.oe s.ns s.ne pre0 in
+  let prev' = eff_start s.maxlen (eff_start s.maxlen prev s.os s.oe) s.ns s.ne in
+  let recs = i.o_recs in
+  let os, oe, ns, ne = (i.o_start, i.o_end, i.n_start, i.n_end) in
+  (* a manifest write that carries the range of the "new" line carries the new range of the instance *)
+  let same a b = int_of_n a = int_of_n b in
+  let tr =
+    Stdlib.List.map (function EMetaWrite (a, b) when same a s.ns && same b s.ne -> EMetaWrite (ns, ne) | e -> e) tr0
+  in
   if dump then
     Stdlib.List.iter
       (fun (r : rrec) -> emit (Printf.sprintf "rec %s %s %s %s" (dec r.r_id) (dec r.r_seg) (dec r.r_off) (dec r.r_len)))
-      recs;
+      all;
   let verdict = rb_explain i d0 tr in
   (* the theorem's hypothesis is [rb_discipline]; evaluate it too so that the two never drift apart *)
   let disc = rb_discipline i d0 tr in
@@ -186,9 +201,10 @@ let evaluate (d0 : disk) (s : section) (dump : bool) (emit : string -> unit) : e
   let is_k f e = f e in
   emit
     (Printf.sprintf
-       "rbsync %s %s start=%s inst=%s old=%s-%s new=%s-%s recs=%d events=%d manifest_write_at=%d creates=%d appends=%d \
-        truncs=%d fsyncs=%d dirsyncs=%d unlinks=%d %s"
-       s.id disc_s (failed start_name st) (failed inst_name ic) (dec s.os) (dec s.oe) (dec s.ns) (dec s.ne)
+       "rbsync %s %s start=%s inst=%s old=%s-%s new=%s-%s manifest_old=%s-%s manifest_new=%s-%s recs=%d events=%d \
+        manifest_write_at=%d creates=%d appends=%d truncs=%d fsyncs=%d dirsyncs=%d unlinks=%d %s"
+       s.id disc_s (failed start_name st) (failed inst_name ic) (dec os) (dec oe) (dec ns) (dec ne) (dec s.os) (dec s.oe)
+       (dec s.ns) (dec s.ne)
        (Stdlib.List.length recs) (Array.length arr) iw
        (count (is_k (function ECreate _ -> true | _ -> false)) tr)
        (count (is_k (function EAppend _ -> true | _ -> false)) tr)
@@ -197,13 +213,14 @@ let evaluate (d0 : disk) (s : section) (dump : bool) (emit : string -> unit) : e
        (count (is_k (function EDirSync -> true | _ -> false)) tr)
        (count (is_k (function EUnlink _ -> true | _ -> false)) tr)
        dec_info);
-  tr
+  (tr, prev')
 
 let rbcheck (path : string) (dump : bool) : string =
   let ic = open_in path in
   let out = Buffer.create 4096 in
   let emit s = Buffer.add_string out s; Buffer.add_char out '\n' in
   let disk : disk ref = ref dempty in
+  let prev : coq_N ref = ref N0 in   (* the start the previous manifest promised *)
   let cur : section option ref = ref None in
   (try
      while true do
@@ -218,14 +235,16 @@ let rbcheck (path : string) (dump : bool) : string =
            | e -> disk := dstep !disk e)
        | "ev" :: e, Some s -> s.tr <- ev_of_tokens e :: s.tr
        | "rbsync" :: id :: _, None ->
-           cur := Some { id; os = N0; oe = N0; ns = N0; ne = N0; recs_x = []; dir = None; tr = [] }
+           cur := Some { id; maxlen = N0; os = N0; oe = N0; ns = N0; ne = N0; recs_x = []; dir = None; tr = [] }
+       | [ "maxlen"; m ], Some s -> s.maxlen <- num m
        | [ "old"; a; b ], Some s -> s.os <- num a; s.oe <- num b
        | [ "new"; a; b ], Some s -> s.ns <- num a; s.ne <- num b
        | [ "rec"; id; seg; off; len ], Some s ->
            s.recs_x <- { r_id = num id; r_seg = num seg; r_off = num off; r_len = num len } :: s.recs_x
        | [ "decode"; dir ], Some s -> s.dir <- Some dir
        | [ "endsync" ], Some s ->
-           let tr = evaluate !disk s dump emit in
+           let tr, p = evaluate !disk !prev s dump emit in
+           prev := p;
            let d = rb_run !disk tr in
            disk := { d_names = d.d_names; d_meta = MOld };
            cur := None
